@@ -14,7 +14,7 @@ from typing import Dict, List, Optional, Tuple
 import common
 import spec as S
 
-GEN_VERSION = "24"
+GEN_VERSION = "26"
 
 STRUM_DERIVES = ["EnumString", "Display", "AsRefStr", "IntoStaticStr", "VariantNames", "EnumIter", "EnumCount", "FromRepr",
                  "VariantArray", "EnumDiscriminants", "EnumIs", "EnumTryAs", "EnumMessage", "EnumProperty", "EnumTable",
@@ -965,11 +965,23 @@ def family_discriminants(rng: random.Random, start: int) -> List[E]:
     for rp, discs in [("u8", ["1", None, "7", None, "200"]), ("i16", ["-4", None, None, "300", None]), ("u32", [None, "1 << 4", None, None, None]), ("i64", ["KM2 as i64", None, "5", None, None]),
                       # unary operators other than minus, parentheses, casts, hex / octal / binary / suffixed literals
                       ("u8", ["2", None, "!0", "7", None]), ("i16", ["!10", None, None, "(300)", None]), ("u16", ["0x10", None, "0b1000_0000", "0o777", "40_000u16"]),
-                      ("i32", ["-(3)", None, "7 as i32", None, "1 << 20"])]:
+                      ("i32", ["-(3)", None, "7 as i32", None, "1 << 20"]),
+                      # signed types whose discriminants span more than the positive half of the type
+                      ("i8", ["-100", None, "100", None, None]), ("i16", ["-32768", None, None, "32766", None]), ("i64", ["-9223372036854775808", None, "0", None, "9223372036854775807"]),
+                      ("isize", ["-5", None, None, "isize::MAX - 1", None])]:
         vs = base()
         for v, d in zip(vs, discs):
             v.disc = d
         e = E("Dsc%04d" % eid, "discriminants", ["EnumDiscriminants", "FromRepr"], vs, repr=rp, disc_attrs=[["derive(FromRepr, EnumIter)"]])
+        out.append(e)
+        eid += 1
+    # unit-only enums whose literal discriminants are contiguous but not ascending / ascending with a gap / all implicit
+    for k, (rp, discs) in enumerate([(None, ["2", "1", "0"]), ("u8", ["0x12", "0x10", None]), ("i8", ["-1", "-2", "-3"]), (None, ["0", "2", "1"]), ("u16", ["5", None, "4"])]):
+        vs = [V("High"), V("Medium"), V("Low")]
+        for v, d in zip(vs, discs):
+            v.disc = d
+        e = E("Dsc%04d" % eid, "discriminants", ["EnumDiscriminants", "FromRepr", "EnumIter", "IntoStaticStr", "AsRefStr", "EnumTable", "VariantArray"], vs, repr=rp, disc_attrs=[["derive(EnumIter, FromRepr)"]],
+              std_derives=["Clone", "Copy", "Debug", "PartialEq"])
         out.append(e)
         eid += 1
     # reprs outside FromRepr's list, and several #[repr] attributes (the last integer one decides the discriminant type)
